@@ -91,16 +91,20 @@ CHECKS = {
          "Lean 4 proof (round trips as corollaries of the formatting and parsing theorems) + differential correspondence of the glue model", "DESIGN.md §5 C17"),
  "C10": ("Lean model of the repaired impl_sqrt (even total scale, floor square root, sticky digit, then with_precision_round = the declarative rounding proved in C07) and of the five entry "
          "points. Kernel-checked: the sticky lemma (10*isqrt(N)+1 lies on the same side of every multiple of ten as 10*sqrt(N), so rounding left of the sticky digit takes the decisions of the true "
-         "root), evenness of the shifted scale, the exact branch, negative -> None, zero -> zero, copy-sign = abs with sign. Every sampled result of the real code is judged by an exact certificate "
+         "root), evenness of the shifted scale, the exact branch, negative -> None, zero -> zero, copy-sign = abs with sign, and C10_implSqrt_spec (whatever impl_sqrt returns IS the declarative precision rounding of the sticky-extended floor root - with C10_sticky: of the real root). Every sampled result of the real code is judged by an exact certificate "
          "(squares of the rounding boundaries, all modes, carries to a new digit, power-of-ten boundaries) and compared exactly with the model. Composition into a single theorem "
          "sqrt_spec is listed as open in DESIGN.md.",
          "PARTIAL: the headline statement is established per sampled input by the certificate, and structurally by the lemmas named. Trusted: BigUint::sqrt = floor sqrt, Lean kernel, extractor, harness/driver.",
          "Lean 4 lemmas (sticky digit) + exact rounding certificate oracle + differential correspondence; partial proof", "DESIGN.md §5 C10"),
  "C11": ("Lean model of the repaired impl_cbrt (scale made divisible by three through the div_rem sign cases, floor cube root, exactness flag, trimming, round_pair on the first discarded digit with "
-         "the translated table) and entry point. Every sampled result of the real code is judged by an exact certificate (cubes of the rounding boundaries, Floor/Ceiling on the signed value) "
-         "and compared exactly with the model; cbrt(-x) under the mirrored mode is compared with -cbrt(x). Kernel-checked so far: zero case; cbrt_spec is listed as open in DESIGN.md.",
-         "PARTIAL: decided per sampled input by the certificate oracle. Trusted: nth_root(3) = floor cube root, Lean kernel, extractor, harness/driver.",
-         "Lean 4 executable model + exact rounding certificate oracle + differential correspondence; partial proof", "DESIGN.md §5 C11"),
+         "the translated table) and entry point. Kernel-checked for all inputs: C11_icbrt_floor (the bisection is the floor cube root), C11_decisions (the comparisons the rounding makes - tail zero, "
+         "below / at the half-way point - are exactly those of the REAL cube root against the kept value and the half-way point), C11_code_rounding (the inline round_pair with its guarded "
+         "trailing-zeros flag is the declarative roundUpM on that tail), C11_scale_third (total scale a multiple of three, result scale exactly a third), C11_mirror / C11_ctx_mirror (cbrt(-x) under m = "
+         "-cbrt(x) under the mirrored mode), zero case. Every sampled result of the real code is additionally judged by an exact certificate (cubes of the rounding boundaries, Floor/Ceiling on the "
+         "signed value) and compared exactly with the model.",
+         "PARTIAL: the pieces are proved for all inputs; their assembly into one statement about the trimmed p-digit result (trim = digits(root) - p >= 1 from the 3(p+4)-digit shift) is checked per "
+         "sampled input by the certificate oracle. Trusted: nth_root(3) = floor cube root as modelled (bisection; proved to be the floor root), Lean kernel, extractor, harness/driver.",
+         "Lean 4 proof (floor root, true-root decisions, inline rounding = declarative rounding, scale, sign mirror) + exact rounding certificate oracle + differential correspondence", "DESIGN.md §5 C11"),
  "C12": ("PARTIAL BY NATURE. Kernel-checked for all inputs: the Newton step is exact and squares the residual (1 - x r' = (1 - x r)^2, r' <= 1/x), negation commutes with the reciprocal under the "
          "mirrored mode (C12_neg_mirror), sign copying, zero/one shortcuts. NOT proved (stated as the proposition C12_inverse_full): termination for every input/guess and the one-unit bound on exit "
          "(upstream itself carried a TODO). That gap is closed per sampled input: every result of the real code is judged exactly (sign, |R x - 1| < unit*x, exact when 1/x has <= p digits) and "
